@@ -434,6 +434,49 @@ func TestC13Messages(t *testing.T) {
 	})
 }
 
+// TestC13AdTexts: expression strings a peer puts into an ad, built from a small grammar of names, blanks and
+// value shapes (quoted strings with every kind of backslash and quote placement - also as the last character -,
+// numbers, lists, records, calls, operators, unbalanced brackets, very long runs), through every ClassAd reader.
+func TestC13AdTexts(t *testing.T) {
+	inner := []string{"a", "C:", "\\", "\\\\", "\\\"", " ", "dir", "\\n", "\\x", "é", "%", "(", "'", "\t", "=", "\\0"}
+	free := []string{"1", "-", "+", "1e999", ".", "true", "undefined", "strcat(", ")", "{", "}", "[", "]", ",", ";", "?", ":", "\"", "\\", "x", " ", "=", "==", "=?=", "&&", "!", "0x", "'", "a.b", "TARGET."}
+	names := []string{"A", "MyType", "ClaimId", "_condor_priv_x", "", " ", "A B", "1A", "ZKM", strings.Repeat("N", 300)}
+	rapid.Check(t, func(t *rapid.T) {
+		n := rapid.IntRange(1, 6).Draw(t, "nlines")
+		var lines []string
+		for i := 0; i < n; i++ {
+			var v strings.Builder
+			switch rapid.IntRange(0, 3).Draw(t, "shape") {
+			case 0, 1: // one quoted string
+				v.WriteString("\"")
+				for k := rapid.IntRange(0, 6).Draw(t, "ninner"); k > 0; k-- {
+					v.WriteString(rapid.SampledFrom(inner).Draw(t, "inner"))
+				}
+				if rapid.IntRange(0, 5).Draw(t, "closed") != 0 {
+					v.WriteString("\"")
+				}
+			case 2: // free pieces
+				for k := rapid.IntRange(0, 10).Draw(t, "nfree"); k > 0; k-- {
+					v.WriteString(rapid.SampledFrom(free).Draw(t, "free"))
+				}
+			case 3: // a long run
+				v.WriteString(strings.Repeat(rapid.SampledFrom(append(inner, free...)).Draw(t, "rep"), rapid.SampledFrom([]int{100, 5000, 70000}).Draw(t, "replen")))
+			}
+			sep := rapid.SampledFrom([]string{" = ", "=", " =", "  =  ", " ", ""}).Draw(t, "sep")
+			lines = append(lines, rapid.SampledFrom(names).Draw(t, "name")+sep+v.String())
+		}
+		mode := rapid.IntRange(0, 7).Draw(t, "mode")
+		data := []byte(strings.Join(lines, "\n"))
+		v := check("adtext", mode, data, true)
+		if len(data) < 200 {
+			ev.Sample("adtext", Case{Surface: "adtext", Mode: mode, Hex: fmt.Sprintf("%x", data)})
+		}
+		if v != "" {
+			t.Fatalf("C13 violated: %s\ninput=%q", v, trunc(data, 500))
+		}
+	})
+}
+
 // TestC13Text: text parsers on generated hostile strings.
 func TestC13Text(t *testing.T) {
 	pieces := []string{"<", ">", "127.0.0.1", ":", "9618", "?", "&", "=", "sock", "addrs", "ccbid", "#", "[", "]", ";", ",", "%", "%zz", "%41",
